@@ -228,7 +228,8 @@ IndexNone ==
 
 \* A "diamond": one fusable node reached from the root along two paths that carry different transposes (blockwise
 \* fusion has to notice when the two paths map the root's block index differently: C04 closure, C02 provenance).
-\*   a = x + 1;  v = a second 1-D source;  r = T(p2, mid(T(p1, a))) + T(q, a)      mid in {+ v (broadcast), * 2, negative}
+\*   a = x + 1;  v = a second 1-D source;  r = T(p2, mid(T(p1, a))) + T(q, a)      mid in {+ v (broadcast), * 2, abs}
+\* (no middle can cancel the other path's contribution: perturbing one source block changes every output block that reads it)
 \* One step pushes the seven actions; every triple of 3-D permutations is enumerated.
 MultiPush(acts, vs) ==
   /\ env' = env \o vs
@@ -238,26 +239,30 @@ DiamondAct ==
   /\ Allowed("Diamond") /\ CanStep
   /\ \E x \in Pick({h \in Live : Rank(env[h]) = 3 /\ env[h].kind = "i" /\ env[h].shape[1] = env[h].shape[2]
                                     /\ env[h].shape[2] = env[h].shape[3]}) :
-     \E p1 \in Pick(Perms(3)) : \E p2 \in Pick(Perms(3)) : \E q \in Pick(Perms(3)) : \E mid \in Pick({"bcast", "scalar", "neg"}) :
+     \E p1 \in Pick(Perms(3)) : \E p2 \in Pick(Perms(3)) : \E q \in Pick(Perms(3)) : \E mid \in Pick({"bcast", "scalar", "abs"}) :
+     \E base \in Pick({"ew", "mb"}) :                          \* a = x + 1   or   a = map_blocks(double, x + 1)
        LET n == Len(env)
+           k == IF base = "mb" THEN 1 ELSE 0                  \* handle offset after the optional map_blocks node
            vshape == <<env[x].shape[3]>>
-           vv == MkSrc(vshape, "i", 1)                      \* a second (from_array) source: the broadcast operand
-           v1 == Binary("add", env[x], Scalar(1, "i"))
+           vv == MkSrc(vshape, "i", 1)                        \* a second (from_array) source: the broadcast operand
+           v0 == Binary("add", env[x], Scalar(1, "i"))
+           v1 == IF base = "mb" THEN Binary("mul", v0, Scalar(2, "i")) ELSE v0
            v2 == Transpose(v1, p1)
-           v3 == CASE mid = "bcast" -> Binary("add", v2, vv) [] mid = "scalar" -> Binary("mul", v2, Scalar(2, "i")) [] OTHER -> Unary("negative", v2)
+           v3 == CASE mid = "bcast" -> Binary("add", v2, vv) [] mid = "scalar" -> Binary("mul", v2, Scalar(2, "i")) [] OTHER -> Unary("abs", v2)
            v4 == Transpose(v3, p2)
            v5 == Transpose(v1, q)
            v6 == Binary("add", v4, v5)
            ew(op, a, b, sc) == [a |-> "Elemwise", op |-> op, x |-> a, y |-> b, scalar |-> sc, skind |-> IF b = 0 THEN "i" ELSE "none", swap |-> FALSE]
-       IN MultiPush(<<SrcAct(vshape, "i", 1),
-                      ew("add", x, 0, 1),
-                      [a |-> "Transpose", x |-> n + 2, perm |-> p1],
-                      CASE mid = "bcast" -> ew("add", n + 3, n + 1, 0) [] mid = "scalar" -> ew("mul", n + 3, 0, 2)
-                        [] OTHER -> [a |-> "Unary", op |-> "negative", x |-> n + 3],
-                      [a |-> "Transpose", x |-> n + 4, perm |-> p2],
-                      [a |-> "Transpose", x |-> n + 2, perm |-> q],
-                      ew("add", n + 5, n + 6, 0)>>,
-                    <<vv, v1, v2, v3, v4, v5, v6>>)
+           a == n + 2 + k
+       IN MultiPush(<<SrcAct(vshape, "i", 1), ew("add", x, 0, 1)>>
+                    \o (IF base = "mb" THEN <<[a |-> "MapPlain", x |-> n + 2]>> ELSE <<>>)
+                    \o <<[a |-> "Transpose", x |-> a, perm |-> p1],
+                         CASE mid = "bcast" -> ew("add", a + 1, n + 1, 0) [] mid = "scalar" -> ew("mul", a + 1, 0, 2)
+                           [] OTHER -> [a |-> "Unary", op |-> "abs", x |-> a + 1],
+                         [a |-> "Transpose", x |-> a + 2, perm |-> p2],
+                         [a |-> "Transpose", x |-> a, perm |-> q],
+                         ew("add", a + 3, a + 4, 0)>>,
+                    <<vv, v0>> \o (IF base = "mb" THEN <<v1>> ELSE <<>>) \o <<v2, v3, v4, v5, v6>>)
 
 ScalarDom(kind) == IF kind = "f" THEN {<<1, 2>>, <<-3, 2>>, <<2, 1>>} ELSE {-1, 0, 2, 3}
 ArithOps == {"add", "sub", "mul", "maximum", "minimum"}
